@@ -56,8 +56,19 @@ def _int(e) -> int | None:
 
 
 def _local_value(fn: ast.AST, name: str) -> ast.expr | None:
-    vals = [s.value for s in stmts_local(fn) if isinstance(s, ast.Assign) and len(s.targets) == 1
-            and isinstance(s.targets[0], ast.Name) and s.targets[0].id == name]
+    """value of a name bound exactly once in the function (plain or annotated assignment); failing that, of a
+    module-level constant of the function's module"""
+    def binds(stmts):
+        out = []
+        for s in stmts:
+            if isinstance(s, ast.Assign) and len(s.targets) == 1 and isinstance(s.targets[0], ast.Name) and s.targets[0].id == name:
+                out.append(s.value)
+            elif isinstance(s, ast.AnnAssign) and isinstance(s.target, ast.Name) and s.target.id == name and s.value is not None:
+                out.append(s.value)
+        return out
+    vals = binds(stmts_local(fn))
+    if not vals and getattr(fn, "_module", None) is not None:
+        vals = binds(fn._module.tree.body)
     return vals[0] if len(vals) == 1 else None
 
 
@@ -96,7 +107,9 @@ def _delimiter(call: ast.Call, default: str) -> str:
 def _fn(mod, qual: str) -> ast.FunctionDef:
     """anchored function after the behaviour-preserving rewrites (helpers inlined, guard-continue folded)"""
     cls = mod.cls(qual.split(".")[0]) if "." in qual else None
-    return normalise(mod, mod.func(qual), cls=cls)
+    fn2 = normalise(mod, mod.func(qual), cls=cls)
+    fn2._module = mod
+    return fn2
 
 
 def _rows_written(fn: ast.FunctionDef):
@@ -483,6 +496,9 @@ def _list_items(e: ast.expr, env: dict, ID: str, EDGE: str):
         out = []
         for x in e.elts:
             if isinstance(x, ast.Starred):
+                if isinstance(x.value, ast.Name) and x.value.id in env:
+                    out.extend(env[x.value.id])
+                    continue
                 c = col(x.value)
                 out.append(c if c else f"?{u(x)}")
             elif isinstance(x, ast.Name) and x.id == ID:
@@ -569,7 +585,7 @@ def _check_2d(ctx: Ctx) -> None:
     ctx.check("R4", ok_pts and n_lead == 1, w, wq, dc,
               f"a row must be [id, point(edge[0]), point(edge[1])] from one point array; it is {layout}",
               construct=f"2d row layout {[x.split('@')[0] for x in layout]}", facts={"layout": layout})
-    ctx.check("R4", edges_src.endswith(".T") and "_edges" in edges_src, w, wq, dc,
+    ctx.check("R4", (edges_src.endswith(".T") or edges_src.endswith(".transpose()")) and "_edges" in edges_src, w, wq, dc,
               f"rows are produced per edge (column of the edge array): iterates `{edges_src}`", construct="2d rows iterate edges.T")
 
     # ---- reader
